@@ -339,6 +339,7 @@ int main(int argc, char** argv)
         {
                 /* ids handled by this shard: from + shard, + nshards, ... */
                 uint64_t next = from + (uint64_t)vh_shard;
+                int timeouts = 0;
                 while(next < to){
                         char tmpl[300];
                         int errfd;
@@ -443,6 +444,13 @@ int main(int argc, char** argv)
                                 vh_count("cases");
                                 failed_workers++;
                                 next = bad + (uint64_t)vh_nshards;
+                                if(!strcmp(how, "timeout") && ++timeouts >= 2){
+                                        /* two cases of this shard did not return within their limit: both are reported; the rest of the
+                                           shard is left out so that the check itself ends (counted: the run is then not exhaustive) */
+                                        vh_count("shards_stopped_after_two_timeouts");
+                                        close(errfd);
+                                        break;
+                                }
                         }
                         close(errfd);
                 }
